@@ -106,6 +106,26 @@ def run(ctx):
         x = r.get("r")
         if x and not x["ok"] and x.get("has_model"):
             ctx.violation("error-with-model", {"input": S(d), "text": d, "why": "a syntax error is returned together with a model"})
+    # a character no lexer rule takes (outside comments and string literals) is a syntax error wherever it stands, also
+    # where the parser can do without it: the error must come back through the returned error
+    stray = []
+    for i in range(n // 8):
+        f = dslgen.gen_file(rng, modular=False, hostile=0.0, max_types=3, max_rels=4, depth=2, exotic=0.1, n_conds=0)
+        t = dslgen.render_file(f, dslgen.Layout(rng, wild=rng.choice([0.0, 0.3]), comments=0.0))
+        if "#" in t or '"' in t or "'" in t:
+            continue
+        k = rng.choice([len(t)] + [j for j, ch in enumerate(t) if ch == "\n"] + [rng.randrange(len(t) + 1) for _ in range(3)])
+        stray.append((t[:k] + rng.choice(";$@~^`\\") + t[k:], t))
+    for modular in (False, True):
+        res = [tf.norm_impl_dsl(r) for r in tf.impl_dsl(ctx, [x[0] for x in stray], modular)]
+        for (d, t), a in zip(stray, res):
+            ctx.count("stray_character_documents")
+            if a[0] == "ok":
+                ctx.violation("syntax-error-not-reported", {"input": S(d), "text": d, "modular": modular,
+                                                            "why": "the document contains a character that no lexer rule accepts, yet it is accepted without error"})
+    tf.correspond_dsl(ctx, [x[0] for x in stray], False, "stray")
+    for d, _ in stray:
+        ctx.note_case(d, True)
     # module merge on damaged files and conflicts in non-canonical spacing
     sets = []
     for i in range(n // 8):
